@@ -53,6 +53,7 @@ const KNOWN_RULES: &[&str] = &[
     "take_read",
     "as_deref",
     "const_static",
+    "try_desugar",
 ];
 
 pub fn apply(repo: &str, req: &ItemReq, f: &mut FnUnderEdit) -> Result<(), String> {
@@ -217,6 +218,14 @@ pub fn apply(repo: &str, req: &ItemReq, f: &mut FnUnderEdit) -> Result<(), Strin
         v.visit_block_mut(&mut f.block);
         let n = v.n;
         f.fire("as_deref", n);
+    }
+
+    // R24 `e?` -> match e { Ok(v) => v, Err(e) => return Err(From::from(e)) }
+    if has("try_desugar") {
+        let mut v = TryDesugar { n: 0 };
+        v.visit_block_mut(&mut f.block);
+        let n = v.n;
+        f.fire("try_desugar", n);
     }
 
     // R11 generics
@@ -589,6 +598,24 @@ impl syn::parse::Parse for VecRepeat {
             return Err(input.error("trailing"));
         }
         Ok(VecRepeat { elem, len })
+    }
+}
+
+// ---------------------------------------------------------------- R24
+struct TryDesugar {
+    n: usize,
+}
+impl VisitMut for TryDesugar {
+    fn visit_expr_mut(&mut self, e: &mut syn::Expr) {
+        visit_mut::visit_expr_mut(self, e);
+        if let syn::Expr::Try(t) = e {
+            let inner = &t.expr;
+            *e = syn::parse_quote!(match #inner {
+                Ok(__vx_v) => __vx_v,
+                Err(__vx_e) => return Err(From::from(__vx_e)),
+            });
+            self.n += 1;
+        }
     }
 }
 
